@@ -18,10 +18,29 @@ struct FSink {
     chunk: usize,
     zero: bool,
     got: Vec<u8>,
+    /// transient fault: the device fails ONCE when the budget is used up and accepts data again
+    /// afterwards; whatever arrives then was written after the operation had been told of the failure
+    transient: bool,
+    faulted: bool,
+    after: Vec<u8>,
+    calls_after: usize,
+}
+impl FSink {
+    fn new(budget: usize, chunk: usize, zero: bool, transient: bool) -> FSink {
+        FSink { budget, chunk, zero, got: Vec::new(), transient, faulted: false, after: Vec::new(), calls_after: 0 }
+    }
 }
 impl Write for FSink {
     fn write(&mut self, buf: &[u8]) -> io::Result<usize> {
+        if self.faulted {
+            self.calls_after += 1;
+            if self.transient {
+                self.after.extend_from_slice(buf);
+                return Ok(buf.len());
+            }
+        }
         if self.budget == 0 {
+            self.faulted = true;
             return if self.zero { Ok(0) } else { Err(io::Error::new(io::ErrorKind::Other, "fault")) };
         }
         let n = self.budget.min(self.chunk).min(buf.len());
@@ -757,13 +776,8 @@ fn run(line: &str) -> String {
                 reference(&make(a[1], a[2]))
             }
         }
-        "w" => {
-            let mut sink = FSink {
-                budget: a[2].parse().unwrap(),
-                chunk: a[3].parse().unwrap(),
-                zero: a[4] == "1",
-                got: Vec::new(),
-            };
+        "w" | "wt" => {
+            let mut sink = FSink::new(a[2].parse().unwrap(), a[3].parse().unwrap(), a[4] == "1", a[0] == "wt");
             let r = if a[1] == "bld" {
                 match run_bld(&parse_bld(a[5]), Out::Io(&mut sink)) {
                     BRes::Io(r) => bres_io(r),
@@ -772,7 +786,11 @@ fn run(line: &str) -> String {
             } else {
                 write_val(&make(a[1], a[5]), &mut sink)
             };
-            format!("{} got={}", r, hex(&sink.got))
+            if a[0] == "wt" {
+                format!("{} got={} # after={} calls={}", r, hex(&sink.got), hex(&sink.after), sink.calls_after)
+            } else {
+                format!("{} got={}", r, hex(&sink.got))
+            }
         }
         "ws" => {
             let n: usize = a[2].parse().unwrap();
